@@ -7,6 +7,31 @@ LIMITS = ("Only numpy, numpy.numpylike and numpy.einsum are importable here; tor
           "Oracles are hand-written from the documentation; where it is silent the case is left out of the alphabet. ")
 
 CHECKS = {
+    "C01": dict(
+        level="exploration",
+        text="Bounded exhaustive enumeration of calls (all skeletons up to rank R per operation family x all <= k notation decorations x size sets) through the real "
+             "public entry points on all three numpy backends, each result compared element by element with an independent loop-notation evaluator (RefSem). "
+             "This is the right level because the property quantifies over the description language: small-scope exhaustive exploration reaches every pair of "
+             "notation features at sizes where a mis-routed element is visible.",
+        note="Tensor contents are chosen (injective / exact small integers), not enumerated; rank <= 4, <= 3 decorations; RefSem is written from the documentation and "
+             "self-tested against its examples before each run. " + LIMITS,
+        technique="bounded exhaustive enumeration of calls, differential against a reference loop interpreter",
+        design="4/C01"),
+    "C02": dict(
+        level="exploration",
+        text="Every expression list over a finite atom menu x every ground truth x every subset of the available information x every single corruption goes through "
+             "solve_shapes, matches and solve_axes and is compared with a brute-force solver that returns exactly the set of satisfying assignments (soundness, "
+             "ambiguity, substitution-completeness); a second alphabet checks exact arithmetic beyond 2**31.",
+        note="Expressions of <= 2 atoms (3 lists in thorough), lengths <= 4, ellipsis repetitions 0..3; quantities >= 2**62 are left out (no such tensor can exist). " + LIMITS,
+        technique="bounded exhaustive enumeration of solver inputs, differential against a brute-force reference solver",
+        design="4/C02"),
+    "C14": dict(
+        level="exploration",
+        text="All update_at skeletons (+ decorations) x set_at/add_at/subtract_at x ALL in-range coordinate tensors (duplicates included) when there are <= CAP "
+             "assignments, compared with the explicit read-modify-write loop; every set_at result is read back with get_at.",
+        note="Target/update contents chosen per seed; coordinates in range; for set_at any competing value is accepted at a multiply addressed element. " + LIMITS,
+        technique="bounded exhaustive enumeration of descriptions and coordinate tensors, differential against an explicit loop",
+        design="4/C14"),
     "C12": dict(
         level="exploration",
         text="Bounded exhaustive input enumeration of the real parser: every token sequence up to the length bound over the notation's alphabet, "
